@@ -522,6 +522,11 @@ pub enum Extra {
         from: u64,
         what: &'static str,
     },
+    /// a legacy-format table now carries a tombstoned (-2) field id: it must not be scanned
+    /// in-process any more (the legacy reader decodes garbage lengths and can abort the process)
+    LegacyTombstones {
+        loc: Loc,
+    },
 }
 
 #[derive(Clone, Debug)]
@@ -945,6 +950,15 @@ impl Hist {
             log_to: 0,
             extra,
         };
+        if kind == OpKind::PartialUpsert && rec.outcome.is_ok() && self.cfg.storage == LanceFileVersion::Legacy {
+            // do NOT refresh (= scan) this table again; the caller judges it from the manifest and ends the case
+            if let Some(l) = rec.loc.clone() {
+                rec.extra = Extra::LegacyTombstones { loc: l };
+            }
+            rec.log_to = self.log_len();
+            self.steps.push(rec.clone());
+            return rec;
+        }
         if !rec.outcome.is_ok() {
             // an op that did not succeed must not change the expectation
             let crash_committed = matches!(rec.extra, Extra::Crash { .. });
